@@ -1,5 +1,5 @@
 (* Properties_C20.v — C20: validate() reports real conflicts, and only those. *)
-From ElfioV Require Import Bytes Mem Stream SectionData Elfio Table Layout Writer Validate_proofs Layout_proofs Validate_writer.
+From ElfioV Require Import Bytes Mem Stream SectionData Elfio Table Layout Writer Validate_proofs Layout_proofs Validate_writer Segment_proofs Validate_oneseg.
 Local Open Scope N_scope.
 
 (* Two non-empty sections that occupy file space and share a file byte are
@@ -66,6 +66,46 @@ Theorem C20_accepts_writer_output_without_segments :
     exists el', layout el = Ok (el', true) /\ validate el' = [].
 Proof. exact validate_accepts_noseg_layout. Qed.
 Print Assumptions C20_accepts_writer_output_without_segments.
+
+(* ... and for an object with one segment of automatically addressed allocated data members plus any sections
+   outside it (the class of C04_layout_with_one_segment): the layout succeeds, no two sections are reported as
+   overlapping, and the program section found at the segment's file offset is its first member, whose address
+   is the segment's virtual address *)
+Theorem C20_accepts_writer_output_with_one_segment :
+  forall el h0 g bound ms,
+    let idxs := g_sections g in
+    let align := if 0 <? p_align g then p_align g else 1 in
+    let secs := el_secs el in
+    let pos0 := e_ehsize h0 + e_phentsize h0 in
+    el_hdr el = Some h0 -> el_segs el = [g] -> lenN secs < 2 ^ 16 ->
+    lenN idxs < 2 ^ 16 -> idxs <> [] -> g_offset_set g = false -> p_type g <> PT_PHDR -> NoDup idxs ->
+    Forall2 (fun i s => nth_optN secs i = Some s) idxs ms ->
+    Forall auto_member ms -> Forall (fun s => sh_addralign s <= p_align g) ms ->
+    bound <= 2 ^ 63 -> Forall (fun s => bound <= 2 ^ xw (s_cls s)) secs -> bound <= 2 ^ xw (g_cls g) ->
+    p_align g < 2 ^ 63 ->
+    p_vaddr g + pos0 + align + mbudget ms + budget secs + 16 < bound ->
+    (forall s, In s secs -> sh_type s = SHT_NULL -> sh_size s = 0) ->
+    (forall s, In s secs -> s_index s = 0 -> sh_size s = 0 \/ sh_type s = SHT_NOBITS) ->
+    exists el', layout el = Ok (el', true) /\ validate el' = [].
+Proof. exact validate_accepts_oneseg_layout. Qed.
+Print Assumptions C20_accepts_writer_output_with_one_segment.
+
+(* non-vacuity: ELF32, a PT_LOAD segment at 0x8048004 (align 0x1000) holding two program sections, a free section behind:
+   the layout succeeds and validate() has nothing to say about it (the object of C04_one_segment_example) *)
+Definition ex1_ms (i al sz : N) : section :=
+  with_index (with_flags (with_size (with_addralign (with_type (new_section C32) 1) al) sz) 2) i.
+Definition ex1_seg : segment :=
+  seg_add_section_index (seg_add_section_index (seg_set (seg_set (seg_set (new_segment C32) GType 1) GVaddr 134512644) GAlign 4096) 1 16) 2 4.
+Example C20_one_segment_example :
+  let fs (i : N) := with_index (with_size (with_addralign (with_type (new_section C32) 1) 1) 7) i in
+  let el := with_segs (with_secs (with_hdr (empty_elfio false) (Some (new_header C32 LSB)))
+                                 [ex1_ms 0 0 0; ex1_ms 1 16 5; ex1_ms 2 4 3; fs 3]) [ex1_seg] in
+  exists el', layout el = Ok (el', true) /\ validate el' = [] /\ map p_offset (el_segs el') = [4100] /\
+              Forall auto_member [ex1_ms 1 16 5; ex1_ms 2 4 3].
+Proof.
+  eexists. split; [vm_compute; reflexivity|]. split; [vm_compute; reflexivity|]. split; [vm_compute; reflexivity|].
+  repeat constructor; vm_compute; discriminate.
+Qed.
 
 (* the pair test is exact on sections that occupy file space *)
 Theorem C20_pair_test_exact :
